@@ -48,6 +48,24 @@ def render_task(case, i):
         if t.get("opts"):
             parts.append("options={%s}" % ", ".join("%r: %r" % (k, v) for k, v in t["opts"]))
     deps = [dep_str(case, i, d) for d in t.get("deps", [])]
+    if case.get("mutate_after"):
+        # COND files are Python: the lists/dicts handed to a task constructor are the file's own objects and the
+        # file goes on to modify them (a loop re-using one list).  The declaration is what was passed at the call.
+        pre, post = [], []
+        mparts = [x for x in parts if not x.startswith(("args=", "options="))]
+        if kind in ("cmd", "exp") and t.get("args"):
+            pre.append("_a%d = %r" % (i, list(t["args"])))
+            mparts.append("args=_a%d" % i)
+            post.append("_a%d.append('MUTATED-AFTER-THE-CALL')" % i)
+        if kind in ("cmd", "exp") and t.get("opts"):
+            pre.append("_o%d = {%s}" % (i, ", ".join("%r: %r" % (k, v) for k, v in t["opts"])))
+            mparts.append("options=_o%d" % i)
+            post.append("_o%d['mutated'] = True" % i)
+        if deps:
+            pre.append("_d%d = %r" % (i, deps))
+            mparts.append("deps=_d%d" % i)
+            post.append("_d%d.append('//:no_such_task_added_after_the_call')" % i)
+        return "%s\n%s(%s)\n%s\n" % ("\n".join(pre), CTOR[kind], ", ".join(mparts), "\n".join(post))
     if deps or t.get("explicit_deps"):
         parts.append("deps=%r" % (deps,))
     return "%s(%s)\n" % (CTOR[kind], ", ".join(parts))
